@@ -461,9 +461,22 @@ func typeOfJSONValue(v any) ExprType {
 		}
 		return &ArrayType{Elem: elem}
 	case map[string]any:
+		// Property names are case insensitive and are looked up in lower case, so the keys of
+		// ObjectType.Props must be in lower case. Keys are visited in sorted order so that merging
+		// the types of keys which differ only in case is deterministic.
+		keys := make([]string, 0, len(v))
+		for k := range v {
+			keys = append(keys, k)
+		}
+		sort.Strings(keys)
 		props := make(map[string]ExprType, len(v))
-		for k, v := range v {
-			props[k] = typeOfJSONValue(v)
+		for _, k := range keys {
+			t := typeOfJSONValue(v[k])
+			k = strings.ToLower(k)
+			if p, ok := props[k]; ok {
+				t = p.Merge(t)
+			}
+			props[k] = t
 		}
 		return NewStrictObjectType(props)
 	case nil:
